@@ -177,8 +177,18 @@ def main():
         in_impl = [f for f in tb if os.path.realpath(f.filename).startswith(repo + os.sep)]
         text = "".join(traceback.format_exception(type(e), e, e.__traceback__))
         if not in_impl:
-            print("INFRA: harness error\n" + text[-3000:])
-            return 2
+            # The harness itself tripped over something the implementation returned (on the unchanged tree this never happens, under
+            # any seed): the property is no longer shown to hold, but there is no failing input of the property's own predicate.
+            if isinstance(e, (OSError, MemoryError, ImportError)):
+                print("INFRA: harness error\n" + text[-3000:])
+                return 2
+            path = write_replay(pid, seed, 0, {"property": pid, "kind": "broken-correspondence",
+                                              "broken": ["the correspondence harness could not process what the implementation returned"],
+                                              "messages": [f"{type(e).__name__}: {e}"], "traceback": text[-4000:],
+                                              "replay": f"VERIF_SEED={seed} ./check {pid} --tier {a.tier}"})
+            print(f"VIOLATION property={pid} replay={path} no-failing-input-found")
+            print("  detail: harness could not process the implementation's output:", f"{type(e).__name__}: {e}"[:300])
+            return 1
         hdir = os.path.realpath(os.path.dirname(os.path.abspath(__file__)))
         harness_frame = ([f for f in tb if os.path.realpath(f.filename).startswith(hdir + os.sep)] or [tb[0]])[-1]
         msg = (f"the implementation raised {type(e).__name__}: {e} on a valid call made by the harness "
